@@ -77,6 +77,28 @@ pub fn elision_variants(c: &mut Ctx, b: &Budget) {
         let arr: Vec<&dyn DigestProvider> = ts.iter().map(|t| t as &dyn DigestProvider).collect();
         let ctx = format!("{} targets in {}", ts.len(), shape(&e));
         let actions = [ObscureAction::Elide, ObscureAction::Compress, ObscureAction::Encrypt(key.clone())];
+        // digests that occur nowhere in the envelope make no difference, however many of them the target set holds (a disclosure policy
+        // written for several documents; a document's reveal set applied to one of its parts)
+        {
+            let mut padded = set.clone();
+            for k in 0..(elements(&e).len() + 40) { padded.insert(Envelope::new(format!("foreign element {}", k)).digest().into_owned()); }
+            for (ai, a) in actions.iter().enumerate() { for rev in [false, true] {
+                let want = guarded(|| e.elide_set_with_action(&set, rev, a));
+                let forms: Vec<(&'static str, Result<Envelope, String>)> = vec![
+                    ("elide_set_with_action(foreign digests)", guarded(|| e.elide_set_with_action(&padded, rev, a))),
+                    ("revealing/removing set door (foreign digests)", guarded(|| if rev { e.elide_revealing_set_with_action(&padded, a) } else { e.elide_removing_set_with_action(&padded, a) })),
+                    ("plain set door (foreign digests)", guarded(|| if ai != 0 { e.elide_set_with_action(&padded, rev, a) } else if rev { e.elide_revealing_set(&padded) } else { e.elide_removing_set(&padded) })),
+                ];
+                for (name, got) in forms {
+                    match (&got, &want) {
+                        (Ok(g), Ok(w)) => c.check("variant-agrees", g.digest() == w.digest() && mask_shape(g) == mask_shape(w), "variant-differs:foreign-digests", || format!("{} (action {}, revealing {}): {} but without the foreign digests {} ({})", name, ai, rev, shape(g), shape(w), ctx)),
+                        (Err(_), Err(_)) => {}
+                        _ => c.check("variant-agrees", false, "variant-differs:foreign-digests", || format!("{}: one form panicked", name)),
+                    }
+                }
+            } }
+            c.count("variant:foreign-digests");
+        }
         // encrypting draws a random nonce: compare the encrypted form by digest and shape with ciphertexts masked
         let cmp = |g: &Envelope, w: &Envelope| g.digest() == w.digest() && mask_shape(g) == mask_shape(w);
         for (ai, a) in actions.iter().enumerate() {
@@ -172,7 +194,7 @@ pub fn assertion_variants(c: &mut Ctx, b: &Budget) {
                 agree!(c, "add_assertion_envelope_if", e.add_assertion_envelope_if(cond, a.clone()).unwrap(), if cond { e.add_assertion_envelope(a.clone()).unwrap() } else { e.clone() }, ctx);
             }
         }
-        for s in ["", "x", "text"] {
+        for s in ["", "x", "text", " x", "x ", " ", "\t", "\n", "\u{a0}x", "  padded  ", "\u{3000}"] {
             agree!(c, "add_nonempty_string_assertion", e.add_nonempty_string_assertion(p.clone(), s), if s.is_empty() { e.clone() } else { e.add_assertion(p.clone(), s) }, ctx);
         }
         agree!(c, "add_optional_assertion_envelope", e.add_optional_assertion_envelope(None).unwrap(), e.clone(), ctx);
@@ -287,6 +309,38 @@ pub fn query_variants(c: &mut Ctx, b: &Budget) {
         }
         c.end();
     }
+}
+
+/// C15: typed reading through `try_as` / `TryFrom<Envelope>` and through the typed lookups at the width boundaries: the stored value
+/// or an error, never another value (both routes end in dcbor's conversion of the stored CBOR, so they must agree with it)
+pub fn integer_widths(c: &mut Ctx, _b: &Budget) {
+    c.begin("integer-widths");
+    let values: Vec<i128> = vec![0, 1, 23, 24, 127, 128, 129, 255, 256, 257, 32767, 32768, 65535, 65536, 65979, 2147483647, 2147483648, 4294967295, 4294967296, 4294967297,
+        9223372036854775807, 9223372036854775808, 18446744073709551615, -1, -24, -25, -128, -129, -256, -32768, -32769, -2147483648, -2147483649, -9223372036854775808];
+    for v in values {
+        let cb: CBOR = if v >= 0 { CBOR::from(v as u64) } else { CBOR::from(v as i64) };
+        let e = Envelope::new(cb.clone());
+        let host = Envelope::new("host").add_assertion("n", cb.clone());
+        macro_rules! width { ($ty:ty, $name:expr) => {{
+            let direct = <$ty>::try_from(cb.clone()).ok();
+            let a = guarded(|| e.try_as::<$ty>().ok());
+            let b2 = guarded(|| e.extract_subject::<$ty>().ok());
+            let t3 = guarded(|| <$ty>::try_from(e.clone()).ok());
+            let l1 = guarded(|| host.extract_object_for_predicate::<$ty>("n").ok());
+            let l2 = guarded(|| host.try_object_for_predicate::<$ty>("n").ok());
+            let l3 = guarded(|| host.extract_optional_object_for_predicate::<$ty>("n").ok().flatten());
+            let l4 = guarded(|| host.extract_objects_for_predicate::<$ty>("n").ok().and_then(|v| v.first().cloned()));
+            let l5 = guarded(|| host.try_objects_for_predicate::<$ty>("n").ok().and_then(|v| v.first().cloned()));
+            let all = [&a, &b2, &t3, &l1, &l2, &l3, &l4, &l5];
+            c.check("typed-reading-agrees", all.iter().all(|x| **x == Ok(direct.clone())), "typed-reading-differs", || format!("{} read as {}: the stored CBOR converts to {:?}; try_as {:?}, extract_subject {:?}, TryFrom<Envelope> {:?}, lookups {:?} {:?} {:?} {:?} {:?}", v, $name, direct, a, b2, t3, l1, l2, l3, l4, l5));
+            // never another value: what comes out is the stored number (the unsigned reading of a negative number is the recorded dcbor finding)
+            if let Some(x) = &direct { if v >= 0 { c.check("extract-exact", (*x as i128) == v, "extract-exact", || format!("{} read as {} gave {}", v, $name, x)); } }
+        }}; }
+        width!(u8, "u8"); width!(u16, "u16"); width!(u32, "u32"); width!(u64, "u64"); width!(usize, "usize");
+        width!(i8, "i8"); width!(i16, "i16"); width!(i32, "i32"); width!(i64, "i64");
+    }
+    c.count("integer-widths");
+    c.end();
 }
 
 /// C17: the *_using forms draw exactly the salt the given generator yields, and nothing else
